@@ -271,6 +271,19 @@ func runC17(r *Result, thorough bool) {
 			}
 		}
 		ec := e.n.VerifCore()
+		if ri%2 == 0 {
+			// the removed validator is idle when the heartbeat comes: nothing pending in its pools, no
+			// loaded event waiting (exchanges without new transactions until it is not busy)
+			for k := 0; k < 400 && ec.Busy(); k++ {
+				a, b := nodes[rng.Intn(len(nodes))], nodes[rng.Intn(len(nodes))]
+				if a != b {
+					validExchange(a, b)
+					a.n.VerifCore().ProcessSigPool()
+					b.n.VerifCore().ProcessSigPool()
+				}
+			}
+			r.Inc("eviction_checks_on_an_idle_node", boolInt(!ec.Busy()))
+		}
 		if ec.Hashgraph().LastConsensusRound != nil {
 			l := *ec.Hashgraph().LastConsensusRound
 			for _, rem := range []int{l + 3, l, 1, 0, -1} {
@@ -281,6 +294,11 @@ func runC17(r *Result, thorough bool) {
 				sc.Op(fmt.Sprintf("RPC suspend %d %d %d %d %d %d %d", len(ec.Hashgraph().UndeterminedEvents), e.n.VerifInitialUndeterminedEvents(), e.n.VerifSuspendLimit(), ec.Validators().Len(), l, rem, ec.AcceptedRound()),
 					fmt.Sprintf("O %d", boolInt(susp)))
 				r.Inc("evicted_checks", 1)
+				// the property's own rule: removed from the validator set (removal round reached) => suspended
+				if rem > 0 && rem > ec.AcceptedRound() && l >= rem && !susp {
+					r.Violate("impl-violation", fmt.Sprintf("a validator whose removal round %d has been reached by its last consensus round %d stays %s after checkSuspend (busy=%v, %d undetermined events)", rem, l, e.n.GetState(), ec.Busy(), len(ec.Hashgraph().UndeterminedEvents)),
+						"removed-not-suspended", map[string]interface{}{"removed_round": rem, "last_consensus_round": l, "busy": ec.Busy()})
+				}
 				if susp {
 					r.Inc("suspended_by_eviction", 1)
 					break // a suspended node cannot be un-suspended (suspendCh is closed)
